@@ -38,6 +38,7 @@ from ..model import c01_ref as ref
 PROPERTY = "C01"
 LEVEL = "exploration"
 NEEDS_RUST = True
+AUTO_TWINS = False  # this module drives both implementations explicitly
 RULE = (
     "Hypothesis-generated cases over git's canonical object grammar (blobs of any bytes/chunking; trees with names around "
     "'/' in byte order, all five legal modes, file/dir/gitlink prefix-collision families; commits with 0..4 parents, odd-byte "
